@@ -13,6 +13,7 @@ import (
 func init() {
 	vpRegister("c08_decode_order", vpH_c08_decode_order)
 	vpRegister("c08_roundtrip", vpH_c08_roundtrip)
+	vpRegister("c08_exotic_keys", vpH_c08_exotic_keys)
 }
 
 // document order through DecodeYAML, UnmarshalOrdered into Map[string,string],
@@ -116,4 +117,37 @@ func vpH_c08_roundtrip() {
 	vpAssert(err == nil, "the emitted node tree decodes")
 	bm, ok := back.(*Map[string, any])
 	vpAssert(ok && Equal(m, bm), "YAML encode then decode gives an Equal map (keys, values, order)")
+}
+
+// Keys are arbitrary strings: quotes, backslashes, control characters, DEL.
+// Whatever the key, the map marshals to JSON (encoding/json validates what a
+// MarshalJSON method returns) and decodes back to an Equal map; the same on
+// the YAML node leg.
+func vpH_c08_exotic_keys() {
+	class := "\\x01-\\x7f"
+	k1 := vpStr(1, class) + vpStrUpTo(1, class)
+	k2 := vpStr(1, class)
+	vpAssume(k1 != k2)
+	m := NewMap[string, any](0)
+	m.Set(k1, "v")
+	if vpBool() {
+		inner := NewMap[string, any](0)
+		inner.Set(k2, "w")
+		m.Set(k2, inner)
+	} else {
+		m.Set(k2, k1)
+	}
+	jb, jerr := json.Marshal(m)
+	vpAssert(jerr == nil, "a map with arbitrary string keys marshals to JSON")
+	if jerr == nil {
+		vpAssert(vpJKind(jb) == 5 && vpJLen(jb) == 2 && vpJKey(jb, 0) == k1 && vpJKey(jb, 1) == k2, "the JSON object has exactly these keys, in order")
+	}
+	y, err := m.MarshalYAML()
+	node, isNode := y.(*yaml.Node)
+	vpAssert(err == nil && isNode, "MarshalYAML succeeds for arbitrary string keys")
+	if err == nil && isNode {
+		back, derr := DecodeYAML(node)
+		bm, ok := back.(*Map[string, any])
+		vpAssert(derr == nil && ok && Equal(m, bm), "YAML encode then decode gives an Equal map for arbitrary string keys")
+	}
 }
